@@ -131,6 +131,16 @@ def run(chk, tier):
                             probs.append("NEEDS_TRACE depends on a parameter although a traced field always holds pointers")
                 if not outs:
                     probs.append("NEEDS_TRACE has no outcome")
+        # ---- require_static fields of generic type: the impl must demand `T: 'static` (that is what justifies not
+        # tracing them), with or without a bound override
+        preds = {p_["s"].replace(" ", "") for p_ in im.get("predicates", [])}
+        for (_, _, fs) in s.variants:
+            for (c, rs) in fs:
+                if rs and c not in corpus.FT:
+                    for pn in re.findall(r"\b([TU])\b", c):
+                        if "%s:'static" % pn not in preds:
+                            probs.append("field of type `%s` is marked require_static but the generated impl does not demand "
+                                         "`%s: 'static`: a branded pointer can be hidden in it, untraced" % (c, pn))
         # ---- no_drop enforcement
         if s.mode == "no_drop" and s.name not in nodrop:
             probs.append("no_drop expansion does not implement __MustNotImplDrop (a Drop impl would be accepted)")
